@@ -39,14 +39,18 @@ def log(*a):
     print(*a, flush=True)
 
 
-def sh(cmd, cwd=None, timeout=None, mem_gb=None, outfile=None):
+def sh(cmd, cwd=None, timeout=None, mem_gb=None, outfile=None, env_extra=None):
     """Run cmd (list) in its own process group; returns (rc, output, timed_out)."""
     if mem_gb:
         kb = int(mem_gb * 1024 * 1024)
         cmd = ["bash", "-c", "ulimit -v %d; exec \"$@\"" % kb, "x"] + cmd
     t0 = time.time()
+    env = ENV
+    if env_extra:
+        env = dict(ENV)
+        env.update(env_extra)
     with open(outfile, "w") if outfile else open(os.devnull, "w") as sink:
-        p = subprocess.Popen(cmd, cwd=cwd, env=ENV, stdout=subprocess.PIPE if not outfile else sink,
+        p = subprocess.Popen(cmd, cwd=cwd, env=env, stdout=subprocess.PIPE if not outfile else sink,
                              stderr=subprocess.STDOUT, text=True, start_new_session=True)
         try:
             out, _ = p.communicate(timeout=timeout)
@@ -87,7 +91,7 @@ def make_scratch(tag):
         if not os.path.exists(tf):
             raise SystemExit("overlay target missing in repo: %s" % target)
         with open(tf, "a") as fh:
-            fh.write('\n#[cfg(kani)] #[path = "%s/%s.rs"] mod %s;\n' % (hdst, mod, mod))
+            fh.write('\n#[cfg(kani)] #[path = "%s/%s.rs"] pub(crate) mod %s;\n' % (hdst, mod, mod))
     # empty [workspace] so the copy is not absorbed by a parent workspace
     ct = os.path.join(src, "Cargo.toml")
     txt = open(ct).read()
@@ -238,49 +242,68 @@ def match_known(known, prop, hname, item):
 # --------------------------------------------------------------------------
 
 def replay(h, scratch, target_dir, prop):
-    """Re-run the failing harness with concrete playback, then execute the
-    generated unit test natively (dev profile, and release).  Returns
+    """Re-run the failing harness with concrete playback (print mode), append
+    the generated unit tests to the scratch copy of the harness module and run
+    them natively (dev profile = what Kani models, and release).  Returns
     (reproduced: bool|None, replay_path, notes)."""
     srcdir = os.path.join(scratch, "src")
     notes = []
-    extra = ["-Z", "concrete-playback", "--concrete-playback=inplace"]
-    if h.get("_unwindset"):
-        extra += ["-Z", "unstable-options"] if "-Z unstable-options" not in " ".join(h.get("kani_args", [])) else []
+    extra = ["-Z", "concrete-playback", "--concrete-playback=print"]
+    if h.get("_cbmc_tail"):
+        extra += ["-Z", "unstable-options"]
     cmd = kani_cmd(h, target_dir, extra) + h.get("_cbmc_tail", [])
-    rc, out, to, _ = sh(cmd, cwd=srcdir, timeout=h.get("timeout", 900) * 2, mem_gb=h.get("mem_gb", 12))
-    modfile = os.path.join(srcdir, "src", "vk", h["module"] + ".rs")
-    txt = open(modfile).read()
-    tests = re.findall(r"fn (kani_concrete_playback_%s\w*)" % re.escape(h["name"]), txt)
+    rc, out, to, _ = sh(cmd, cwd=srcdir, timeout=h.get("timeout", 900) * 2, mem_gb=40)
+    os.makedirs(os.path.join(VERIF, "replays", prop), exist_ok=True)
+    with open(os.path.join(VERIF, "replays", prop, h["name"] + ".playback.log"), "w") as fh:
+        fh.write("rc=%s timeout=%s\n" % (rc, to) + out[-30000:])
+    blocks = re.findall(r"```\n(///.*?#\[test\]\nfn kani_concrete_playback_.*?\n\})\n```", out, re.S)
+    # tests are also generated for satisfied cover goals: keep only those of failed checks
+    blocks = [b for b in blocks if "Check for `cover`" not in b]
+    # de-duplicate by test name
+    seen, uniq = set(), []
+    for b in blocks:
+        n = re.search(r"fn (kani_concrete_playback_\w+)", b).group(1)
+        if n not in seen:
+            seen.add(n)
+            uniq.append(b)
+    blocks = uniq[:8]
     rdir = os.path.join(VERIF, "replays", prop)
     os.makedirs(rdir, exist_ok=True)
     rpath = os.path.join(rdir, h["name"] + ".rs")
-    if not tests:
+    if not blocks:
         notes.append("concrete playback produced no test")
         with open(rpath, "w") as fh:
             fh.write("// no concrete playback test could be generated for %s\n" % h["name"])
         return None, rpath, notes
-    # extract the generated test bodies for the replay artefact
-    blocks = re.findall(r"(#\[test\]\s*fn kani_concrete_playback_%s\w*\(\) \{.*?\n\})" % re.escape(h["name"]), txt, re.S)
     with open(rpath, "w") as fh:
-        fh.write("// Concrete counterexample for harness %s::%s (property %s).\n" % (h["module"], h["name"], prop))
-        fh.write("// Replay: append to the harness module in a scratch overlay (./check %s --keep) and run\n" % prop)
-        fh.write("//   cargo kani playback -Z concrete-playback --no-default-features -- %s\n\n" % tests[0])
+        fh.write("// Concrete counterexample(s) for harness %s::%s (property %s), generated by Kani concrete playback.\n" % (h["module"], h["name"], prop))
+        fh.write("// Replay: `./check %s --keep --only %s`, append this file to <scratch>/src/src/vk/%s.rs and run in <scratch>/src:\n" % (prop, h["name"], h["module"]))
+        fh.write("//   cargo kani playback -Z concrete-playback --no-default-features --lib -- kani_concrete_playback_%s\n\n" % h["name"])
         fh.write("\n\n".join(blocks) + "\n")
+    modfile = os.path.join(srcdir, "src", "vk", h["module"] + ".rs")
+    with open(modfile, "a") as fh:
+        fh.write("\n\n#[cfg(test)]\nmod kani_playback_tests {\n    use super::*;\n    #[allow(unused_imports)]\n    use std::vec::Vec;\n"
+                 + "\n\n".join(blocks) + "\n}\n")
     results = []
-    for prof in ([], ["--release"]):
-        cmd = ["cargo", "kani", "playback", "-Z", "concrete-playback", "--no-default-features"] + prof + ["--", tests[0]]
-        env_target = dict(ENV)
-        rc, out, to, _ = sh(cmd, cwd=srcdir, timeout=900)
-        failed = ("test result: FAILED" in out) or ("panicked at" in out)
-        passed = "test result: ok" in out and not failed
-        results.append((("release" if prof else "dev"), failed, passed))
-        with open(os.path.join(rdir, h["name"] + (".release" if prof else ".dev") + ".log"), "w") as fh:
+    for prof in ("dev", "release"):
+        cmd = ["cargo", "kani", "playback", "-Z", "concrete-playback", "--no-default-features", "--lib",
+               "--", "kani_concrete_playback_" + h["name"]]
+        env = None
+        if prof == "release":
+            # cargo kani playback has no --release: give the test profile release semantics instead
+            env = {"CARGO_PROFILE_TEST_OPT_LEVEL": "3", "CARGO_PROFILE_TEST_OVERFLOW_CHECKS": "false",
+                   "CARGO_PROFILE_TEST_DEBUG_ASSERTIONS": "false"}
+        rc, out, to, _ = sh(cmd, cwd=srcdir, timeout=1200, env_extra=env)
+        failed = ("test result: FAILED" in out) or bool(re.search(r"test \S+ \.\.\. FAILED", out))
+        passed = bool(re.search(r"test result: ok\. [1-9]", out)) and not failed
+        results.append((prof, failed, passed))
+        with open(os.path.join(rdir, h["name"] + "." + prof + ".log"), "w") as fh:
             fh.write(out[-20000:])
     repro = any(f for _, f, _ in results)
     if not repro and not any(p for _, _, p in results):
         notes.append("playback did not run")
         return None, rpath, notes
-    notes.append("playback: " + ", ".join("%s=%s" % (n, "FAILS" if f else "passes") for n, f, _ in results))
+    notes.append("playback: " + ", ".join("%s=%s" % (n, "FAILS" if f else ("passes" if p else "not-run")) for n, f, p in results))
     return repro, rpath, notes
 
 
